@@ -33,6 +33,8 @@ def run(F, G, tier, seed):
     scopes.part_context(chk, F, G)
     scopes.current_clear(chk, F, G)
     scopes.template_set(chk, F)
+    from ..rules import driver as _drv
+    _drv.expr_entry(chk, F)
     nullness.run_nullmember(chk, F, ("UTAP::TypeChecker",))
     progress.run(chk, F, CG)
     chk.assume("functions without a body in the facts (libstdc++, libxml2, libc) raise no UTAP::TypeException")
